@@ -19,6 +19,7 @@ package ucfg
 
 import (
 	"fmt"
+	"math"
 	"regexp"
 	"strconv"
 	"strings"
@@ -270,7 +271,9 @@ func (i idxField) SetValue(opts *options, elem value, v value) Error {
 		return raiseExpectedObject(opts, elem)
 	}
 
-	if i.i < 0 || int64(i.i) > opts.maxIdx {
+	// the list gets i.i+1 entries: the largest int can not be an index, whatever
+	// MaxIdx says
+	if i.i < 0 || int64(i.i) > opts.maxIdx || i.i == math.MaxInt {
 		return raiseIndexOutOfBounds(opts, elem, i.i)
 	}
 
